@@ -76,14 +76,30 @@ class ExcelType:
     def _sort_key(self, other):
         return (self.sort_precedence, self.value)
 
+    @staticmethod
+    def _double(value):
+        # Whole numbers are kept as Python ints, which never round - Excel's
+        # numbers are doubles. Beyond 2**53 a whole result is what the
+        # doubles give: 3*3*...*3 (40 times) is the same number as
+        # 3.0*3.0*...*3.0.
+        if isinstance(value, int) and abs(value) > 2 ** 53:
+            try:
+                return float(value)
+            except OverflowError:
+                return float('inf') if value > 0 else float('-inf')
+        return value
+
     def __add__(self, other):
-        return Number(Number.cast(self).value + Number.cast(other).value)
+        return Number(self._double(
+            Number.cast(self).value + Number.cast(other).value))
 
     def __sub__(self, other):
-        return Number(Number.cast(self).value - Number.cast(other).value)
+        return Number(self._double(
+            Number.cast(self).value - Number.cast(other).value))
 
     def __mul__(self, other):
-        return Number(Number.cast(self).value * Number.cast(other).value)
+        return Number(self._double(
+            Number.cast(self).value * Number.cast(other).value))
 
     def __truediv__(self, other):
         ovalue = float(Number.cast(other))
@@ -105,7 +121,8 @@ class ExcelType:
     # Reflected forms (a native on the left): subtraction and power are not
     # commutative, their operands have to be swapped back.
     def __rsub__(self, other):
-        return Number(Number.cast(other).value - Number.cast(self).value)
+        return Number(self._double(
+            Number.cast(other).value - Number.cast(self).value))
 
     def __rpow__(self, other):
         return Number(Number.cast(other).value ** Number.cast(self).value)
